@@ -6,6 +6,8 @@ unary_to_nary(op)(fun, argnum, *oa, **ok)(*args, **kwargs)
              resp. fun(*args[i_k := z[k] for all k], **kwargs); all other positions and kwargs untouched
    UN-result the operator's result is returned unchanged; args / kwargs are not modified
    UN-type   argnum of another type is rejected
+   UN-alias  the same object in several slots: substitution by position only
+   UN-reentrant  a call's unary function keeps that call's args/kwargs after later calls of the same operator instance (no per-operator shared state)
 Operators (their unary bodies, with core.make_vjp / make_jvp replaced by contract stubs; vspace attributes symbolic):
    grad / value_and_grad:  raise TypeError iff vspace(ans).size != 1, else vjp(vspace(ans).ones()) (and ans untouched)
    elementwise_grad:       raise TypeError iff output complex, else vjp(ones)
@@ -36,11 +38,15 @@ def _out(rep, module):
     return out
 
 
-def run_nary(rep, tier):
+def run_nary(rep, tier, clauses=None):
     import autograd.wrap_util as W
 
     rep.function(FN, W.unary_to_nary)
-    out = _out(rep, "contracts.diffops")
+    out_ = _out(rep, "contracts.diffops")
+
+    def out(name, ok, detail, **kw):
+        if clauses is None or name.rsplit(":", 1)[-1] in clauses:
+            out_(name, ok, detail, **kw)
     N = 4
     rep.bound(f"{FN}: argument count 1..{N}; every int argnum incl. negative; every ordered selection of <=3 distinct positions as tuple and "
               "as list; extra operator args/kwargs present - enumerated; all values opaque")
@@ -86,6 +92,45 @@ def run_nary(rep, tier):
             oks = r == "FUNRES" and len(a) == n and all(p is q for p, q in zip(a, exp)) and k == kwargs
             out(f"{FN}:{case}:UN-subst", oks, f"{case}: u(z) called fun with {[getattr(p, 'term', p) for p in a]}")
             out(f"{FN}:{case}:UN-result", res == "RESULT" and all(p.term == ("arg", i) for i, p in enumerate(args)), case)
+            # UN-alias: the SAME object in every positional slot - substitution is by position, never by identity/equality of values
+            if n >= 2:
+                A = Opaque(("same",))
+                log.clear()
+                nary(fun, argnum, *oa, **ok_)(*([A] * n), **dict(kwargs))
+                uf_a = log["op"][0]
+                uf_a(z)
+                a, k = log["fun"][-1]
+                exp = [A] * n
+                if kind == "int":
+                    exp[argnum] = z
+                else:
+                    for i, zz in zip(argnum, z):
+                        exp[i] = zz
+                out(f"{FN}:{case}:UN-alias", len(a) == n and all(p is q for p, q in zip(a, exp)) and k == kwargs,
+                    f"{case}: the same object passed in all {n} slots; u(z) called fun with {[getattr(p, 'term', p) for p in a]}, expected z only at {argnum}")
+            # UN-reentrant: the unary function handed to the operator by ONE call keeps that call's arguments when the same n-ary operator
+            # instance is called again (lazy operators such as make_jvp / make_vjp evaluate it later; two threads share one operator)
+            log.clear()
+            nf = nary(fun, argnum, *oa, **ok_)
+            args1 = tuple(Opaque(("call1", i)) for i in range(n))
+            args2 = tuple(Opaque(("call2", i)) for i in range(n))
+            kw1, kw2 = {"kw": Opaque(("kw1",))}, {"kw": Opaque(("kw2",)), "kwb": Opaque(("kwb",))}
+            nf(*args1, **dict(kw1))
+            uf1 = log["op"][0]
+            nf(*args2, **dict(kw2))
+            uf2 = log["op"][0]
+            okr = True
+            for uf_, args_, kw_ in ((uf1, args1, kw1), (uf2, args2, kw2), (uf1, args1, kw1)):
+                uf_(z)
+                a, k = log["fun"][-1]
+                exp = list(args_)
+                if kind == "int":
+                    exp[argnum] = z
+                else:
+                    for i, zz in zip(argnum, z):
+                        exp[i] = zz
+                okr = okr and len(a) == n and all(p is q for p, q in zip(a, exp)) and k == kw_
+            out(f"{FN}:{case}:UN-reentrant", okr, f"{case}: after a second call of the same operator instance the first call's unary function called fun with {[getattr(p, 'term', p) for p in a]} / {sorted(k)}")
     try:
         W.unary_to_nary(lambda f, x: None)(lambda x: x, 1.0)
         bad = False
@@ -107,7 +152,8 @@ def run_ops(rep, tier):
 
     out = _out(rep, "contracts.diffops")
     ovs()
-    names = ["grad", "value_and_grad", "elementwise_grad", "deriv", "jacobian", "make_hvp", "make_jvp_reversemode", "grad_and_aux", "checkpoint"]
+    names = ["grad", "value_and_grad", "elementwise_grad", "deriv", "jacobian", "make_hvp", "make_jvp_reversemode", "grad_and_aux", "checkpoint",
+             "tensor_jacobian_product", "hessian_tensor_product", "hessian", "grad_named", "holomorphic_grad"]
     for nm in names:
         rep.function(f"autograd.differential_operators.{nm}", getattr(D, nm, None))
     rep.bound("differential operators: vspace(ans).size / iscomplex symbolic (z3); jacobian output/input ranks 0..2 with basis sizes 0..3")
@@ -252,6 +298,92 @@ def run_ops(rep, tier):
         out("autograd.differential_operators.grad_and_aux:ground:OP-aux-untouched", ok, "gradient seeded with (ones(ans), zeros(aux)); aux returned untouched")
 
     _guard("make_hvp / make_jvp_reversemode / grad_a", _blk_make_hvp___make_jvp_reversemod)
+    # ---- tensor_jacobian_product / hessian_tensor_product / hessian / grad_named: compositions of the operators above
+    def _blk_products():
+        class NP:
+            @staticmethod
+            def ndim(v):
+                return ("ndim", v.term)
+
+            @staticmethod
+            def tensordot(a, b, axes=None):
+                return Opaque(("tensordot", getattr(a, "term", a), getattr(b, "term", b), axes))
+        args = (Opaque(("a", 0)), Opaque(("a", 1)))
+        vec = Opaque(("vector",))
+        kw = {"k": Opaque(("k",)), "k2": Opaque(("k2",))}
+        for argnum in (0, 1, (0, 1)):
+            # tensor_jacobian_product(fun, argnum) = jacobian(lambda *args, V, **kw: tensordot(V, fun(*args, **kw), axes=ndim(V)), argnum)
+            rec = {}
+
+            def jac(f, an=0):
+                rec["jac"] = (f, an)
+                return "JACFUN"
+            flog = []
+
+            def fun(*a, **k):
+                flog.append((a, k))
+                return Opaque(("fun-result",))
+            r = rebind(D.tensor_jacobian_product, jacobian=jac, np=NP)(fun, argnum)
+            vdf, an = rec["jac"]
+            res = vdf(*args, vec, **dict(kw))
+            ok = (r == "JACFUN" and an == argnum and len(flog) == 1 and len(flog[0][0]) == 2 and all(p is q for p, q in zip(flog[0][0], args)) and flog[0][1] == kw
+                  and isinstance(res, Opaque) and res.term == ("tensordot", ("vector",), ("fun-result",), ("ndim", ("vector",))))
+            out(f"autograd.differential_operators.tensor_jacobian_product:argnum{argnum}:OP-tjp".replace(" ", ""), ok,
+                f"TJP = jacobian of (args, V, kwargs) -> tensordot(V, fun(*args, **kwargs), ndim(V)) wrt argnum; fun saw {[(tuple(getattr(x, 'term', x) for x in a), sorted(k)) for a, k in flog]}, result {getattr(res, 'term', res)}")
+            # hessian_tensor_product(fun, argnum) = grad(lambda *args, V, **kw: tensordot(grad(fun, argnum)(*args, **kw), V, ndim(V)), argnum)
+            glog, calls = [], []
+
+            def gradstub(f, an=0):
+                glog.append((f, an))
+                if len(glog) == 1:
+                    def fun_grad(*a, **k):
+                        calls.append((a, k))
+                        return Opaque(("grad-result",))
+                    return fun_grad
+                return "GRAD2"
+            r = rebind(D.hessian_tensor_product, grad=gradstub, np=NP)(fun, argnum)
+            ok = r == "GRAD2" and len(glog) == 2 and glog[0] == (fun, argnum) and glog[1][1] == argnum
+            if ok:
+                res = glog[1][0](*args, vec, **dict(kw))
+                ok = (len(calls) == 1 and all(p is q for p, q in zip(calls[0][0], args)) and len(calls[0][0]) == 2 and calls[0][1] == kw
+                      and isinstance(res, Opaque) and res.term == ("tensordot", ("grad-result",), ("vector",), ("ndim", ("vector",))))
+            out(f"autograd.differential_operators.hessian_tensor_product:argnum{argnum}:OP-htp".replace(" ", ""), ok,
+                "HTP = grad of (args, V, kwargs) -> tensordot(grad(fun, argnum)(*args, **kwargs), V, ndim(V)) wrt argnum")
+        out("autograd.differential_operators.hessian_vector_product:alias:OP-alias", D.hessian_vector_product is D.hessian_tensor_product and D.vector_jacobian_product is D.tensor_jacobian_product,
+            "hessian_vector_product / vector_jacobian_product are the tensor versions")
+        # hessian = jacobian(jacobian(fun))(x)
+        body = _unary(D.hessian)
+        jl = []
+
+        def jac2(f, an=0):
+            jl.append((f, an))
+            return (lambda x_, _k=len(jl): Opaque(("jac", _k, getattr(x_, "term", x_))))
+        fun2, x = object(), Opaque(("x",))
+        r = rebind(body, jacobian=jac2)(fun2, x)
+        ok = len(jl) == 2 and jl[0] == (fun2, 0) and jl[1][1] == 0 and callable(jl[1][0]) and isinstance(r, Opaque) and r.term == ("jac", 2, ("x",)) and jl[1][0](Opaque(("q",))).term == ("jac", 1, ("q",))
+        out("autograd.differential_operators.hessian:ground:OP-hessian", ok, "hessian = jacobian(jacobian(fun))(x)")
+        # grad_named(fun, name) = grad(fun, position of name)
+        rec = {}
+        r = rebind(D.grad_named, grad=lambda f, an=0: rec.setdefault("g", (f, an)) and "G")(lambda p_, q_, r_=1: None, "q_")
+        out("autograd.differential_operators.grad_named:ground:OP-named", r == "G" and rec["g"][1] == 1, "grad_named = grad at the positional index of the name")
+        # holomorphic_grad = grad(real o fun)(x)
+        body = _unary(D.holomorphic_grad)
+        rec = {}
+
+        class NP2:
+            @staticmethod
+            def real(v):
+                return Opaque(("real", getattr(v, "term", v)))
+
+        def gradh(f, an=0):
+            rec["f"] = f
+            return lambda x_: Opaque(("grad-at", getattr(x_, "term", x_)))
+        xh = Opaque(("x",), iscomplex=True)
+        r = rebind(body, grad=gradh, np=NP2)(lambda x_: Opaque(("f", getattr(x_, "term", x_))), xh)
+        ok = isinstance(r, Opaque) and r.term == ("grad-at", ("x",)) and rec["f"](Opaque(("q",))).term == ("real", ("f", ("q",)))
+        out("autograd.differential_operators.holomorphic_grad:ground:OP-holomorphic", ok, "holomorphic_grad = grad(real(fun))(x)")
+
+    _guard("tensor_jacobian_product / hessian_tensor_product / hessian / grad_named / holomorphic_grad", _blk_products)
     # ---- checkpoint: primitive(fun) + defvjp_argnum whose rule re-runs make_vjp(fun, argnum) on the ORIGINAL args/kwargs
     def _blk_checkpoint__primitive_fun____d():
         import autograd.core as C
